@@ -75,6 +75,17 @@ fn big_sets(f: &mut dyn FnMut(G)) {
     f(call(E::Seq(vec![E::Word(vec![E::lit("p:"), alt2, E::lit(";"), E::Alt(vec![E::lit("u"), E::lit("uv")])]), E::lit("t")])));
 }
 
+/// values that begin with the text of the word's own head, and a later alternation whose
+/// literals extend those of an earlier one (literals of a later point must not stop the scan)
+fn head_overlap_sets(f: &mut dyn FnMut(G)) {
+    let lit = E::lit;
+    let alt = |xs: &[&str]| E::Alt(xs.iter().map(|x| lit(x)).collect());
+    f(call(E::Seq(vec![E::Word(vec![lit("a"), alt(&["a", "aa", "aab"])]), lit("foo")])));
+    f(call(E::Seq(vec![E::Word(vec![lit("-"), alt(&["-", "-v", "-vv"])]), lit("foo")])));
+    f(call(E::Seq(vec![E::Word(vec![alt(&["x", "xy"]), lit("="), alt(&["x", "xyz"])]), lit("foo")])));
+    f(call(E::Seq(vec![E::Word(vec![lit("k"), alt(&["k", "kk"]), lit(":"), alt(&["kkk", "k"])]), lit("foo")])));
+}
+
 pub fn run(tier: Tier) -> Report {
     let mut rep = Report::new("C12", tier, "model_checking");
     let (defs, pr) = std_probes();
@@ -86,6 +97,7 @@ pub fn run(tier: Tier) -> Report {
         }
     });
     big_sets(&mut |g| grammars.push(g));
+    head_overlap_sets(&mut |g| grammars.push(g));
     let total = grammars.len();
     let scratch = Scratch::new("c12");
     crate::traces::EMPTY_WB_STRIDE.with(|s| s.set(tier.pick(5, 1)));
